@@ -22,7 +22,7 @@ MANIFEST = {
              "abstraction (indentation + statement kind per line) of the real generated __init__/process* code; parse_indent agrees with "
              "CPython's ast.parse (also on perturbed indentation); CTransitionTableModel vs Model/TTable.v; the real modules are imported in a "
              "subprocess and driven through Trigger<Event> under a tracing controller subclass and compared with the interpreter. "
-             "ENGINE BRIDGE (C08_sem_engine, C08_block_structure_engine, C08_ref_reads, C08_wf_table_admitted): for every well-formed table the "
+             "ENGINE BRIDGE (C08_sem_engine_full, C08_sem_engine, C08_block_structure_engine, C08_ref_reads, C08_init_reads, C08_wf_table_admitted): for every well-formed table the "
              "file the engine model's pipeline writes from the State Processing region of the SHIPPED template (Model/PyRender.py_proc16: the "
              "lines of Gen/Templates.v from def process on, read into the template syntax of C16, checked to render back and to lie in "
              "in_grammar16) is a sequence of lines that read one by one (reads: indentation ++ Python statement of the abstract atom; blank / "
@@ -33,7 +33,7 @@ MANIFEST = {
              "NoTransition). Modelled, not verified: CPython executing if/return/method calls as the big-step semantics says; the construction of the event object in "
              "Trigger<Event> (that Trigger calls process(event) synchronously exactly once when StateMachineThread=0 is now part of the theorem, "
              "C08_sem_triggered, from the IR of Gen/PySync.v; threaded delivery is C11); isinstance on distinct event classes = name equality. "
-             "The three constructor lines (<<<STATE_0>>>, filterInitialState) are still tied to the engine by the abstraction of the real text only. Names that collide with identifiers the template itself uses (Enum, EventStartup, NoTransition, ...) are outside the proof's name "
+             "The three behaviour-deciding constructor lines (def, entry callback and assignment of <<<STATE_0>>>; selected from the shipped file like translator/pytmpl.py does: PyRender.py_init16) go through the engine too (C08_sem_engine_full, C08_init_reads; filterInitialState is part of the C16 grammar), compared with the real text on every case. The process region and the constructor lines are run through the engine model as templates of their own (the whole shipped file is outside the C16 grammar: SIGNATURE, TTT_BOOST_SML, user tags); that the real engine produces the same text inside the whole file is observed on every case, not proved. Names that collide with identifiers the template itself uses (Enum, EventStartup, NoTransition, ...) are outside the proof's name "
              "abstraction; they are probed on the real code."),
 }
 RULE = ("random well-formed tables biased to several rows per (state,event) mixing guarded rows and unguarded fallbacks in both orders, "
@@ -311,6 +311,12 @@ def one_case(ctx, table, spec, evs_with_args, bits, correspond=True):
             if src[start:] != ref:
                 ctx.tie_broken("the process region of the generated module differs from ref16 of the shipped region (Model/PyRender.py_proc16)",
                                {"table": table, "real": src[start:][:1500], "ref16": ref[:1500]})
+            iref = ctx.km.call("py.init_ref", rows, [], [], []).decode("utf-8", "surrogateescape").split("\n")
+            ilines = [l for l in src[:start].split("\n") if l == "    def __init__(self, controller):" or ("self.context.On" in l and "Entry(EventStartup())" in l)
+                      or l.startswith("        self.currentState = ")]
+            if ilines + [""] != iref:
+                ctx.tie_broken("the constructor's initial-state lines of the generated module differ from ref16 of Model/PyRender.py_init16",
+                               {"table": table, "real": ilines, "ref16": iref})
             if ctx.km.call("py.proc_reads", rows, [], [], []) != b"1":
                 ctx.tie_broken("py_proc_reads false although C08_ref_reads is proved", {"table": table})
         # the model's own run agrees with the spec on this case (re-evaluates the theorem's instance outside Coq)
